@@ -576,7 +576,7 @@ def _tdopt_case(kind, entry, nm, relink=False):
     a symbolic link crossing volumes either way), the readers decode the written Path back to the entry's location"""
     with rt.untraced():
         k = TD_KINDS[kind]
-        rt.begin(('tdopt', k, TD_ENTRY[entry], TD_NAMES[nm]))
+        rt.begin(('tdopt', k, TD_ENTRY[entry], TD_NAMES[nm], relink))
         src = TD_ENTRY[entry][:-1] + TD_NAMES[nm]
         nodes = [W.d('/h'), W.d('/v/d'), W.d('/r'), W.f(src, 'DATA', 0o644, 1000)]
         evol = '/v' if src.startswith('/v/') else '/'
